@@ -18,19 +18,24 @@
    package with exactly those collection sizes 25 times in one process (Go randomises
    map iteration per loop) and in two fresh processes and compares every file byte for byte. *)
 EXTENDS Integers, Sequences, FiniteSets, TLC, Json
-CONSTANTS MaxItems, Sorted   \* Sorted: [Collections -> BOOLEAN]
-Collections == {"imports", "files", "overloads", "xgodeps", "forced", "samebase"}
+CONSTANTS MaxItems, MaxMix, Sorted   \* Sorted: [Collections -> {"total", "bykey", "none"}]; MaxMix: collections with items per program
+\* xgosame: extension dependencies that share their package name (v1/xt, v2/xt: different paths) - a walk sorted by a key on
+\*          which items tie ("bykey": the package name) is as unordered as an unsorted one
+\* ovref:   explicit overload families (XGoo_ constants) that list another family: the members of a family depend on which
+\*          families were registered before it, so the registration walk must have a fixed order
+Collections == {"imports", "files", "overloads", "xgodeps", "forced", "samebase", "xgosame", "ovref"}
+TieOnKey == {"xgosame"}
 VARIABLES size, perm1, perm2
 vars == <<size, perm1, perm2>>
 Perms(n) == {p \in [1..n -> 1..n] : \A i, j \in 1..n : i # j => p[i] # p[j]}
 Ascending(p) == [i \in DOMAIN p |-> i]
 \* what a writer emits for collection c given the permutation its walk happened to take
-Emitted(c, p) == IF Sorted[c] THEN Ascending(p) ELSE p
+Emitted(c, p) == IF Sorted[c] = "total" \/ (Sorted[c] = "bykey" /\ c \notin TieOnKey) THEN Ascending(p) ELSE p
 \* the first copy walks every collection in ascending order (without loss of generality: any two walks differ iff
 \* one of them differs from the ascending one), the second copy's walks are free
 PermRec(sz) == [imports : Perms(sz["imports"]), files : Perms(sz["files"]), overloads : Perms(sz["overloads"]), xgodeps : Perms(sz["xgodeps"]),
-                forced : Perms(sz["forced"]), samebase : Perms(sz["samebase"])]
-Init == /\ size \in [Collections -> 0..MaxItems]
+                forced : Perms(sz["forced"]), samebase : Perms(sz["samebase"]), xgosame : Perms(sz["xgosame"]), ovref : Perms(sz["ovref"])]
+Init == /\ size \in {sz \in [Collections -> 0..MaxItems] : Cardinality({c \in Collections : sz[c] > 0}) <= MaxMix}
         /\ perm1 = [c \in Collections |-> [i \in 1..size[c] |-> i]]
         /\ perm2 \in PermRec(size)
 Next == UNCHANGED vars
